@@ -224,7 +224,7 @@ SPEC = {
              'host discipline (old gates structurally and functionally unchanged, interface unchanged), no XOR/NXOR among '
              'fresh gates under AIG, documented gate-count bounds. Non-trivial: n>=3 with a carry across levels.'),
     'assumptions': ['reference tables from vlib/refsem.py; uuid4 replaced by a seeded stream'],
-    'subs': [Sub('sum', cases, check_sum, {'quick': 1600, 'thorough': 25000})],
+    'subs': [Sub('sum', cases, check_sum, {'quick': 1600, 'thorough': 125000})],
     'required_classes': {'sum': KINDS + ['basis:AIG/str', 'basis:AIG/enum', 'basis:XAIG/str', 'internal_operands',
                                          'repeated_operands', 'shift_vs_len:gt', 'shift_vs_len:eq', 'be', 'le']},
 }
